@@ -879,7 +879,17 @@ func C18(c *Ctx) {
 		if st == restoreCopy {
 			// the restored copy of non-nil bindings becomes the result's bindings: non-nil stays non-nil
 			nonNil := false
-			for _, f := range flow.FactsAt(st.Block()) {
+			facts := append([]flow.Fact{}, flow.FactsAt(st.Block())...)
+			// the store may sit in a helper that is called at one place only: what holds at that call holds here
+			for g, k := st.Parent(), 0; g != exec && k < 5; k++ {
+				sites := callSitesOf(g, closure)
+				if len(sites) != 1 {
+					break
+				}
+				facts = append(facts, flow.FactsAt(sites[0].Block())...)
+				g = sites[0].Parent()
+			}
+			for _, f := range facts {
 				if bo, ok := f.Cond.(*ssa.BinOp); ok && ssau.IsNilConst(bo.Y) && ((bo.Op == token.NEQ && f.True) || (bo.Op == token.EQL && !f.True)) {
 					if _, is := isFieldLoad(bo.X, "core", "Execution", "Bs"); is {
 						nonNil = true
